@@ -36,7 +36,7 @@ def generate(seed, run, tier):
         spec['pool_worlds'] = [W.gen_world(r, h, w, spec['types'], spec['colors'], **kw) for _ in spec['pool_worlds']]
         for wv in [spec['world']] + spec['pool_worlds']:
             if r.random() < 0.5:
-                plant_door_scene(r, wv, spec['colors'], spec['unique'])
+                plant_door_scene(r, wv, spec['colors'], spec['unique'], spec['types'])
         for must in ('actuate_door', 'actuate_box'):
             if must not in spec['chain'] and r.random() < 0.7:
                 spec['chain'].insert(r.randrange(len(spec['chain']) + 1), must)
@@ -53,7 +53,7 @@ def generate(seed, run, tier):
     return rec
 
 
-def plant_door_scene(r, w, colors, unique):
+def plant_door_scene(r, w, colors, unique, types=None):
     """a door (any status) right in front of the agent and some held item (key of any colour, or other)"""
     y, x, hd, _ = w['agent']
     dy, dx = M.FWD[hd]
@@ -63,6 +63,8 @@ def plant_door_scene(r, w, colors, unique):
     dc = r.choice(colors)
     w['cells'][fy][fx] = ['Door', r.choice(['LOCKED', 'LOCKED', 'CLOSED', 'OPEN']), dc]
     m = r.random()
+    if types is not None and 'Key' not in types:
+        m = 0.85  # only declared types may be held
     if m < 0.4:
         w['agent'][3] = ['Key', dc]
     elif m < 0.8:
